@@ -49,10 +49,14 @@ func (c *c19Cloud) DescribeInstanceTypes(ctx context.Context, ts []string) ([]ec
 func TestVerifC19Advertised(t *testing.T) {
 	r := ev.New("C19", "node-advertisement")
 	defer r.Flush()
-	r.Rule("every instance-type description (EniQuantity 1..4, addresses per interface 1..3, IPv6 {0, same}, EniTotalQuantity {q, q+5}, trunk support y/n, ERI 0..1) x eni-config (ip_stack v4/dual, trunking, RDMA) x node mode (shared / exclusive-ENI label) x trunk interface {absent, InUse in the Node CR status}; the REAL controller ReconcileNode.Reconcile creates the Node CR from the limits, the REAL daemon-side nodeReconcile fills flavor and pool, the REAL controller reconcile then writes the max-available-ip annotation and the aliyun/eni / aliyun/member-eni extended resources on a fake API server; oracle from the description alone: advertised addresses <= (EniQuantity-1) x addresses per interface, exclusive interfaces <= EniQuantity-1, member interfaces <= EniTotalQuantity-EniQuantity and none without trunk support or without a trunk interface, nothing negative")
+	r.Rule("every instance-type description (EniQuantity 1..4, addresses per interface 1..3 (thorough: 1..8, 1..5), IPv6 {0, same}, EniTotalQuantity {q, q+5}, trunk support y/n, ERI 0..1) x eni-config (ip_stack v4/dual, trunking, RDMA) x node mode (shared / exclusive-ENI label) x trunk interface {absent, InUse in the Node CR status}; the REAL controller ReconcileNode.Reconcile creates the Node CR from the limits, the REAL daemon-side nodeReconcile fills flavor and pool, the REAL controller reconcile then writes the max-available-ip annotation and the aliyun/eni / aliyun/member-eni extended resources on a fake API server; oracle from the description alone: advertised addresses <= (EniQuantity-1) x addresses per interface, exclusive interfaces <= EniQuantity-1, member interfaces <= EniTotalQuantity-EniQuantity and none without trunk support or without a trunk interface, nothing negative")
 	n := 0
-	for q := 1; q <= 4; q++ {
-		for per := 1; per <= 3; per++ {
+	maxQ, maxPer := 4, 3
+	if ev.Thorough() {
+		maxQ, maxPer = 8, 5
+	}
+	for q := 1; q <= maxQ; q++ {
+		for per := 1; per <= maxPer; per++ {
 			for _, v6 := range []int{0, per} {
 				for _, extra := range []int{0, 5} {
 					for _, trunkOK := range []bool{false, true} {
